@@ -35,15 +35,16 @@ def pipe_rule(repo, res, rule="PIPE"):
         if len(c["args"]) != 3:
             res.bad(rule, f"{rule}:main::aot:{mod}:arity", f"{len(c['args'])} arguments", f"{fn.file}:{c['l']}")
             continue
-        cmd = A.show(A.resolve(c["args"][1], envs.get(id(c))))
+        # success-path wrappers (`?`, `Ok(v) => v`, `.or_else(..)`, borrows) are taken off at every level before comparing shapes
+        cmd = A.show(P.deep_peel(A.resolve(c["args"][1], envs.get(id(c)))))
         cmd = re.sub(r"(\.(as_str|as_ref|borrow|deref)\(\))+$", "", cmd)  # the same string handed on as &str
-        dfa = A.show(A.resolve(c["args"][2], envs.get(id(c))))
-        m = re.fullmatch(r"(Ok\.0<-ValidGrammar::from_grammar\(Ok\.0<-Grammar::parse\((.*?)\), (.*)\))\.command", cmd)
+        dfa = A.show(P.deep_peel(A.resolve(c["args"][2], envs.get(id(c)))))
+        m = re.fullmatch(r"(ValidGrammar::from_grammar\(Grammar::parse\((.*?)\), (.*)\))\.command", cmd)
         res.check(bool(m), rule, f"{rule}:main::aot:{mod}:command-name", f"command <= {cmd[:140]}" + ("" if m else ": must be the `command` of ValidGrammar::from_grammar(Grammar::parse(input), shell)"), f"{fn.file}:{c['l']}")
         ok = False
         if m:
             v = re.escape(m.group(1))
-            ok = bool(re.fullmatch(rf"Ok\.0<-DFA::from_regex_raw\(Ok\.0<-Regex::from_valid_grammar\({v}, (\S+)\), \1\)\.minimize\(\)", dfa))
+            ok = bool(re.fullmatch(rf"DFA::from_regex_raw\(Regex::from_valid_grammar\({v}, (\S+)\), \1\)\.minimize\(\)", dfa))
         res.check(ok, rule, f"{rule}:main::aot:{mod}:automaton", f"automaton <= {dfa[:60]}..{dfa[-40:]}" + ("" if ok else ": must be minimize(from_regex_raw(from_valid_grammar(<the same validated grammar>, pool), pool))"), f"{fn.file}:{c['l']}")
     # ARMS: Shell::X arm calls module x
     n = 0
